@@ -30,7 +30,7 @@ CONSTANTS
   GovEventsC <- GovC
   Prefix <- PrefixC
   NativeAmounts = {}
-  MaxDepth = 7
+  MaxDepth = 6
   MaxBlocks = 3
 INVARIANT NoViolation
 
